@@ -316,10 +316,74 @@ def directed(run, prop, tier, seed):
     return s
 
 
+def emit_twice_stream(run, prop, tier, seed):
+    """one parse and label resolution, two emissions (the way a tool writes an IPS patch and an SFC image from one Program)"""
+    import os
+    from a816.program import Program
+    rng = core.rng_for(seed, prop + "-emit-twice")
+    s = core.Stream("S4-emit-twice", "generated programs (blocks, named scopes, macros, loops whose bodies use the loop variable and body-local labels, names that also exist at the top level) and hand-written loop programs: parse, resolve_labels, emit into a first writer, resolver_reset(), emit into a second writer -- scopes are entered again by replay, so the second emission must write the same blocks as the first; non-trivial = distinct sources")
+    srcs = []
+    for i in range(30 if tier == "quick" else 300):
+        a, n = rng.randrange(1, 200), rng.randrange(2, 5)
+        srcs.append(rng.choice([
+            f"*=0x008000\nk = 0x77\n.for k := 0, {n} {{\n.db k\n}}\n.db k\n",
+            f"*=0x008000\nv := {a}\n.for i := 0, {n} {{\nv = i + 1\nloc:\n.db v\n.dw loc\n}}\n.db v\n",
+            f"*=0x008000\n.macro m(x) {{\nhere:\n.db x\n.dw here\n}}\n.for i := 0, {n} {{\nm(i + {a})\n}}\n",
+            f"*=0x008000\nloc:\n.for i := 0, {n} {{\n.scope s {{\nloc:\n.db i\n}}\n.dw s.loc, loc\n}}\n.dw loc\n",
+        ]))
+    gens = []
+    for i in range(40 if tier == "quick" else 400):
+        pr = gen_program.generate(rng, run.drv, rom="low_rom", features={"incbin": False, "usermap": False})
+        if not pr["src"].lstrip().startswith("*="):
+            pr["src"] = "*=0x008000\n" + pr["src"]     # resolver_reset() does not reset the run address: start from a `*=`
+        gens.append(pr)
+    for item in srcs + gens:
+        src = item if isinstance(item, str) else item["src"]
+        if not isinstance(item, str):
+            impl.write_files(run.tmp, item.get("files"), item.get("bins"))
+        cwd = os.getcwd()
+        os.chdir(run.tmp)
+        try:
+            with impl.quiet(), core.watchdog(20):
+                prog = Program()
+                err, nodes = prog.parser.parse(src, "twice.s")
+                if err is not None:
+                    s.count("rejected-by-parser")
+                    continue
+                try:
+                    prog.resolve_labels(nodes)
+                    w1 = impl.CollectWriter()
+                    prog.emit(nodes, w1)
+                except Exception:  # noqa: BLE001
+                    s.count("rejected")
+                    continue
+                b1 = [(a_, bytes(b_)) for b_, a_ in getattr(w1, "raw", [])] or list(w1.blocks)
+                try:
+                    prog.resolver_reset()
+                    w2 = impl.CollectWriter()
+                    prog.emit(nodes, w2)
+                    b2 = list(w2.blocks)
+                except Exception as e:  # noqa: BLE001
+                    b2 = ("raised", type(e).__name__, str(e)[:120])
+        except core.Timeout:
+            continue
+        finally:
+            os.chdir(cwd)
+        s.cases += 1
+        s.nontrivial.add(src)
+        s.count("emitted-twice")
+        if b2 != list(w1.blocks):
+            s.violate({"src": src, "api": "parse; resolve_labels; emit(w1); resolver_reset(); emit(w2)"}, "the blocks of the first emission",
+                      str(b2)[:300], "a second emission of the same resolved program writes something else: names of closed scopes (loop iterations, macro applications) no longer resolve as they did")
+    s.sample({"src": srcs[0]})
+    return s
+
+
 def run_prop(prop, ctx):
     run = pipeline.Runner()
     try:
+        extra = [emit_twice_stream(run, prop, ctx["tier"], ctx["seed"])] if prop == "C08" else []
         return [twin_stream(run, prop, ctx["tier"], ctx["seed"]), directed(run, prop, ctx["tier"], ctx["seed"]),
-                pipeline.wild_stream(run, prop, ctx["tier"], ctx["seed"]), run.repeat_stream()]
+                pipeline.wild_stream(run, prop, ctx["tier"], ctx["seed"])] + extra + [run.repeat_stream()]
     finally:
         run.close()
